@@ -8,6 +8,7 @@ package main
 // with the configuration read from the recording.
 
 import (
+	"bytes"
 	"encoding/json"
 	"flag"
 	"fmt"
@@ -22,6 +23,7 @@ import (
 	"github.com/coredhcp/coredhcp/plugins"
 	"github.com/coredhcp/coredhcp/server"
 	"github.com/insomniacslk/dhcp/dhcpv4"
+	"github.com/insomniacslk/dhcp/dhcpv6"
 )
 
 func init() { families["conv"] = runConv }
@@ -292,5 +294,232 @@ func runConv(args []string) error {
 		}
 	}
 	_ = time.Now
+	return nil
+}
+
+// ---- DHCPv6 (spec/Conv6.tla, Conv6Core.tla, Conv6Trace.tla) -------------------------------------------
+
+type conv6Chain struct {
+	name  string
+	chain []string
+}
+
+func conv6Chains() []conv6Chain {
+	return []conv6Chain{
+		{"typical6", []string{"server_id", "file", "prefix", "dns"}},
+		{"nosid6", []string{"file", "dns", "prefix"}},
+		{"prefixfirst6", []string{"prefix", "server_id", "file", "dns"}},
+		{"filelast6", []string{"server_id", "dns", "prefix", "file"}},
+	}
+}
+
+type conv6Letter struct {
+	c, mt, sid string
+	na, pd     bool
+}
+
+var conv6Types = map[string]dhcpv6.MessageType{"solicit": 1, "request": 3, "confirm": 4, "renew": 5, "rebind": 6, "release": 8, "decline": 9, "inforeq": 11}
+
+func conv6Alphabet() []conv6Letter {
+	var a []conv6Letter
+	for _, c := range []string{"c1", "c2", "c3"} {
+		for _, mt := range []string{"solicit", "request", "confirm", "renew", "rebind", "release", "decline", "inforeq"} {
+			for _, sid := range []string{"none", "own", "other"} {
+				for _, w := range [][2]bool{{false, true}, {true, true}, {true, false}, {false, false}} {
+					a = append(a, conv6Letter{c, mt, sid, w[0], w[1]})
+				}
+			}
+		}
+	}
+	return a
+}
+
+const conv6Static = "2001:db8::7"
+
+func runConv6Scenario(t *Trace, dir string, id int, cc conv6Chain, letters []conv6Letter, r *rand.Rand) error {
+	d := filepath.Join(dir, fmt.Sprintf("conv6-%d", id))
+	os.MkdirAll(d, 0o755)
+	defer os.RemoveAll(d)
+	leases := filepath.Join(d, "leases6.txt")
+	os.WriteFile(leases, []byte(convMacs["c1"].String()+" "+conv6Static+"\n"), 0o644)
+	own := &dhcpv6.DUIDLL{HWType: 1, LinkLayerAddr: net.HardwareAddr{0, 0xde, 0xad, 0xbe, 0xef, 0}}
+	sc := &config.ServerConfig{}
+	for _, p := range cc.chain {
+		var args []string
+		switch p {
+		case "server_id":
+			args = []string{"LL", "00:de:ad:be:ef:00"}
+		case "file":
+			args = []string{leases}
+		case "prefix":
+			args = []string{"2001:db8:0:fffe::/63", "64"}
+		case "dns":
+			args = []string{"2001:4860:4860::8888"}
+		}
+		sc.Plugins = append(sc.Plugins, config.PluginConfig{Name: p, Args: args})
+	}
+	_, h6, err := plugins.LoadPlugins(&config.Config{Server6: sc})
+	if err != nil {
+		return fmt.Errorf("LoadPlugins(%v): %v", cc.chain, err)
+	}
+	t.Emit(Ev{"ev": "c6reset", "name": cc.name, "chain": cc.chain, "N": 2, "static": []Ev{{"c": "c1", "a": 7}}})
+	l6 := server.NewVerifListener6(h6, net.Interface{})
+	poolBase := net.ParseIP("2001:db8:0:fffe::")
+	for _, le := range letters {
+		m := &dhcpv6.Message{MessageType: conv6Types[le.mt]}
+		r.Read(m.TransactionID[:])
+		m.AddOption(dhcpv6.OptClientID(&dhcpv6.DUIDLL{HWType: 1, LinkLayerAddr: convMacs[le.c]}))
+		switch le.sid {
+		case "own":
+			m.AddOption(dhcpv6.OptServerID(own))
+		case "other":
+			m.AddOption(dhcpv6.OptServerID(&dhcpv6.DUIDLL{HWType: 1, LinkLayerAddr: net.HardwareAddr{9, 9, 9, 9, 9, 9}}))
+		}
+		if le.na {
+			m.AddOption(&dhcpv6.OptIANA{IaId: [4]byte{0, 0, 0, 1}})
+		}
+		if le.pd {
+			m.AddOption(&dhcpv6.OptIAPD{IaId: [4]byte{0, 0, 0, 2}})
+		}
+		m.AddOption(dhcpv6.OptRequestedOption(dhcpv6.OptionDNSRecursiveNameServer))
+		fr := feed(nil, l6, 6, m.ToBytes(), 7, &net.UDPAddr{IP: net.ParseIP("fe80::99"), Port: 546})
+		e := Ev{"ev": "c6msg", "c": le.c, "mt": le.mt, "sid": le.sid, "na": le.na, "pd": le.pd, "sent": false, "type": "none", "rna": 0, "rpd": 0,
+			"opts": []string{}, "sidok": false, "res": fr.res, "n": fr.n}
+		if len(fr.sent6) == 1 && fr.sent6[0].Resp != nil {
+			if back, err := dhcpv6.FromBytes(fr.sent6[0].Resp.ToBytes()); err == nil {
+				if bm, ok := back.(*dhcpv6.Message); ok {
+					e["sent"] = true
+					switch bm.MessageType {
+					case dhcpv6.MessageTypeAdvertise:
+						e["type"] = "advertise"
+					case dhcpv6.MessageTypeReply:
+						e["type"] = "reply"
+					default:
+						e["type"] = bm.MessageType.String()
+					}
+					if nas := bm.Options.IANA(); len(nas) > 0 {
+						e["rna"] = -2
+						if len(nas) == 1 {
+							if as := nas[0].Options.Addresses(); len(as) == 1 && as[0].IPv6Addr.Equal(net.ParseIP(conv6Static)) {
+								e["rna"] = 7
+							}
+						}
+					}
+					if pds := bm.Options.IAPD(); len(pds) > 0 {
+						e["rpd"] = -2
+						if len(pds) == 1 {
+							ps := pds[0].Options.Prefixes()
+							st := pds[0].Options.Status()
+							switch {
+							case len(ps) == 0 && st != nil && st.StatusCode == 6: // NoPrefixAvail
+								e["rpd"] = -1
+							case len(ps) == 1 && ps[0].Prefix != nil:
+								ones, _ := ps[0].Prefix.Mask.Size()
+								ip := ps[0].Prefix.IP.To16()
+								if ones == 64 && ip != nil && bytes.Equal(ip[:7], poolBase[:7]) && ip[7]&0xfe == poolBase[7] {
+									e["rpd"] = int(ip[7]&1) + 1
+								}
+							}
+						}
+					}
+					opts := []string{}
+					if sid := bm.Options.ServerID(); sid != nil {
+						opts = append(opts, "sid")
+						e["sidok"] = bytes.Equal(sid.ToBytes(), own.ToBytes())
+					}
+					if len(bm.Options.DNS()) > 0 {
+						opts = append(opts, "dns")
+					}
+					e["opts"] = opts
+				}
+			}
+		}
+		t.Emit(e)
+		if fr.res == "wedged" || fr.res == "panic" {
+			break
+		}
+	}
+	return nil
+}
+
+func init() { families["conv6"] = runConv6 }
+
+func runConv6(args []string) error {
+	fs := flag.NewFlagSet("conv6", flag.ContinueOnError)
+	out := fs.String("out", "trace.ndjson", "trace file")
+	seed := fs.Int64("seed", 1, "seed")
+	walks := fs.Int("walks", 300, "seeded conversations per chain")
+	pairs := fs.Bool("pairs", true, "all conversations of two messages of clients c1, c2 (reduced alphabet)")
+	chainIdx := fs.Int("chain", 0, "index of the chain")
+	shard := fs.Int("shard", 0, "this shard")
+	shards := fs.Int("shards", 1, "number of shards")
+	dir := fs.String("dir", "", "scratch directory")
+	if err := fs.Parse(args); err != nil {
+		return err
+	}
+	if *dir == "" {
+		d, err := os.MkdirTemp("", "conv6")
+		if err != nil {
+			return err
+		}
+		defer os.RemoveAll(d)
+		*dir = d
+	}
+	t, err := NewTrace(*out)
+	if err != nil {
+		return err
+	}
+	defer t.Close()
+	registerBuiltin()
+	installGoroutineHooks()
+	ccs := conv6Chains()
+	cc := ccs[*chainIdx%len(ccs)]
+	alpha := conv6Alphabet()
+	x := 0
+	run := func(letters []conv6Letter) error {
+		x++
+		if x%*shards != *shard {
+			return nil
+		}
+		return runConv6Scenario(t, *dir, x, cc, letters, rand.New(rand.NewSource(*seed*1000003+int64(x))))
+	}
+	// every single message, on a fresh chain and after a SOLICIT of the same client that got a prefix
+	for _, a := range alpha {
+		if err := run([]conv6Letter{a}); err != nil {
+			return err
+		}
+		if err := run([]conv6Letter{{a.c, "solicit", "none", true, true}, a, {a.c, "renew", "own", false, true}}); err != nil {
+			return err
+		}
+	}
+	if *pairs {
+		var red []conv6Letter
+		for _, a := range alpha {
+			if a.c != "c3" && (a.pd || a.na) && !(a.na && a.pd) {
+				red = append(red, a)
+			}
+		}
+		for _, a := range red {
+			for _, b := range red {
+				if (x+1)%7 != 0 { // a seventh of the pairs, spread evenly
+					x++
+					continue
+				}
+				if err := run([]conv6Letter{a, b}); err != nil {
+					return err
+				}
+			}
+		}
+	}
+	r := rand.New(rand.NewSource(*seed))
+	for i := 0; i < *walks; i++ {
+		var letters []conv6Letter
+		for j := 0; j < 5+r.Intn(8); j++ {
+			letters = append(letters, alpha[r.Intn(len(alpha))])
+		}
+		if err := run(letters); err != nil {
+			return err
+		}
+	}
 	return nil
 }
